@@ -38,6 +38,10 @@ func isCallTo(v ssa.Value, id string) *ssa.Call {
 }
 
 func checkC01(p *load.Program, r *kit.Report) {
+	importRules(p, r, "C11", "after a restart the reported chain is what Save managed to write: a write that failed but is reported as saved leaves the most-work branch out of the files, and the next Load comes up on a lighter chain", 3,
+		func(o *kit.Obligation) bool {
+			return strings.HasPrefix(o.Construct, "headers.Repository.save") || strings.HasPrefix(o.Construct, "headers.Repository.Save") || strings.HasPrefix(o.Construct, "headers.Branch.Save")
+		}, "ERR-DISPOSITION")
 	importRules(p, r, "C11", "the header reported for a pruned height is read from the files saveMainBranch wrote: their layout must be what the readers compute", 3, nil, "MAIN-FILE-SHAPE")
 	importRules(p, r, "C17", "MarkHeaderInvalid removes branches: the tip must be re-selected from what is left on every path", 1,
 		func(o *kit.Obligation) bool { return strings.Contains(o.Construct, "reselect-after-trim") }, "MUST-PASS")
